@@ -173,7 +173,7 @@ func twinsC08(src *choice.Src, w *World, envReads []string) (tw []*World, dims [
 	}
 	{
 		t := w.Clone()
-		t.CwdSub = choice.Pick(src, "twin.cwd", []string{"x", "deep/er/still", "a b"})
+		t.CwdSub = choice.Pick(src, "twin.cwd", []string{"x", "deep/er/still", "a b", "proj[1]", "we*rd", "q?", "back\\slash", "$HOME"})
 		t.CwdGo = src.Bool("twin.cwdgo")
 		add("cwd", t)
 	}
@@ -277,6 +277,25 @@ func CheckC08(t Target, src *choice.Src, st *Stats) *Violation {
 		if d := diff(base, rr, true); len(d) > 0 {
 			return &Violation{Property: "C08", Sig: "run-from:" + strings.Join(d, "+"), Detail: "starting the command from another directory (same files, paths respelled) changed " + strings.Join(d, "+") + "\n" + explain(base, rr),
 				Worlds: []*World{w, rw}, Mode: "twin-out", Expect: []string{digest(base), digest(rr)}, Choices: genDraws}
+		}
+	}
+	// directory-noise twin: unrelated files next to -o (editor backups, a temporary file left by a
+	// killed run, ...) are nobody's input
+	if w.OutKind == "file" && len(w.Faults) == 0 {
+		nw := w.Clone()
+		dir, b := filepath.Dir(w.Out), filepath.Base(w.Out)
+		junk := strings.Repeat("// left behind by something else\n", 2000)
+		for _, n := range []string{"." + b + ".tmp", b + ".tmp", b + "~", "." + b + ".swp", b + ".bak", "." + b + ".tmp0"} {
+			nw.Files = append(nw.Files, InFile{Path: filepath.Join(dir, n), Content: junk})
+		}
+		nr := Exec(t, nw)
+		if st != nil {
+			st.note(nw, nr)
+			st.Dims["unrelated-files-next-to-output"]++
+		}
+		if d := diff(base, nr, false); len(d) > 0 {
+			return &Violation{Property: "C08", Sig: "dir-noise:" + strings.Join(d, "+"), Detail: "unrelated files in the output directory changed " + strings.Join(d, "+") + "\n" + explain(base, nr),
+				Worlds: []*World{w, nw}, Mode: "twin-all", Expect: []string{digest(base), digest(nr)}, Choices: genDraws}
 		}
 	}
 	// previous-output twin: -o already holds what the same configuration generated under another
